@@ -54,13 +54,16 @@ fn engines_for(property: &str) -> Vec<(Box<dyn Engine>, u64, u64)> {
             (Box::new(ChanInline), 1_000_000, 20_000_000),
             (Box::new(ChanThreads), 100_000, 3_000_000),
         ],
-        "C03" => vec![(Box::new(CtxFrames), 200_000, 6_000_000)],
+        "C03" => vec![(Box::new(CtxFrames), 150_000, 6_000_000)],
         "C04" => vec![(Box::new(CtxSpans { focus: "C04" }), 150_000, 5_000_000)],
         "C05" => vec![(Box::new(CtxSpans { focus: "C05" }), 300_000, 8_000_000)],
         "C18" => vec![(Box::new(CtxSpans { focus: "C18" }), 150_000, 5_000_000)],
         "C12" => vec![(Box::new(OtlpSim { focus: "C12" }), 40_000, 1_500_000)],
         "C14" => vec![(Box::new(OtlpSim { focus: "C14" }), 60_000, 2_000_000)],
-        "C10" => vec![(Box::new(Fsim { mode: "C10" }), 5_000, 200_000)],
+        "C10" => vec![
+            (Box::new(Fsim { mode: "C10" }), 5_000, 200_000),
+            (Box::new(FileE2e), 20_000, 600_000),
+        ],
         "C11" => vec![(Box::new(Fsim { mode: "C11" }), 1_000_000, 30_000_000)],
         _ => vec![],
     }
